@@ -204,6 +204,9 @@ structure Token where
   id : Nat
   mint : Nat
   proofs : List WProof
+  /-- wallet that handed it out with `Send` (its proofs are in that wallet's pending bucket); `none` for the
+      locked proofs of `SendToPubkey`, which exist only in the token -/
+  sender : Option Nat := none
   deriving Repr, Inhabited
 
 structure World where
@@ -557,7 +560,7 @@ inductive Eff : Type → Type where
   | memGet : Eff WMem
   | memSet (m : WMem) : Eff Unit
   -- harness-visible value returned to the caller
-  | emitToken (mint : Nat) (ps : List WProof) : Eff Unit
+  | emitToken (mint : Nat) (ps : List WProof) (pending : Bool) : Eff Unit
   | fresh : Eff Nat
   -- client (`wallet/client`)
   | cInfo (mint : Nat) : Eff (CRes Unit)
@@ -597,7 +600,7 @@ def Eff.label : Eff α → Option String
   | .close => some "db.Close"
   | .memGet => none
   | .memSet _ => none
-  | .emitToken _ _ => none
+  | .emitToken _ _ _ => none
   | .fresh => none
   | .cInfo _ => some "client.GetMintInfo"
   | .cKeysets _ => some "client.GetAllKeysets"
@@ -636,7 +639,7 @@ def Eff.dflt : (e : Eff α) → α
   | .close => ()
   | .memGet => { mints := [{ mint := 0, active := { mint := 0, id := 0, active := true, ppk := 0 } }] }
   | .memSet _ => ()
-  | .emitToken _ _ => ()
+  | .emitToken _ _ _ => ()
   | .fresh => 0
   | .cInfo _ => .ok ()
   | .cKeysets _ => .ok [{ id := 0, ppk := 0, active := true }]
@@ -776,7 +779,8 @@ def execDb (wi : Nat) (w : World) : (e : Eff α) → Option (World × α)
   | .close => some (w, ())
   | .memGet => some (w, (w.wallet wi).mem)
   | .memSet m => some (w.setWallet wi { w.wallet wi with mem := m }, ())
-  | .emitToken mi ps => some ({ w with tokens := w.tokens ++ [{ id := w.tokens.length, mint := mi, proofs := ps }] }, ())
+  | .emitToken mi ps pend =>
+    some ({ w with tokens := w.tokens ++ [{ id := w.tokens.length, mint := mi, proofs := ps, sender := if pend then some wi else none }] }, ())
   | .fresh => some ({ w with nextId := w.nextId + 1 }, w.nextId)
   | _ => none
 
@@ -1243,7 +1247,7 @@ def send (cx : Cx) (amount : UInt64) (mi : Nat) (includeFees : Bool) : PM (List 
   | some mm =>
     let proofsToSend ← subM "getProofsForAmount" (getProofsForAmount cx amount mm includeFees)
     eff (.addPending proofsToSend)
-    eff (.emitToken mi proofsToSend)
+    eff (.emitToken mi proofsToSend true)
     pure proofsToSend
 
 /-- `SendToPubkey(amount, mintURL, pubkey, tags, includeFees)`. -/
@@ -1254,7 +1258,7 @@ def sendToPubkey (cx : Cx) (amount : UInt64) (mi : Nat) (lock : Lock) (includeFe
   | some mm =>
     cTry (.cInfo mi)
     let locked ← subM "swapToSend" (swapToSend cx amount mm (some lock) includeFees)
-    eff (.emitToken mi locked)
+    eff (.emitToken mi locked false)
     pure locked
 
 /-! ### receiving -/
@@ -1724,6 +1728,70 @@ def initWorld (sel : Sel) (fees : List UInt64) (wallets : List (Nat × Nat)) : W
 
 def getBalance (x : Wallet) : UInt64 := proofsAmount x.db.proofs
 def pendingBalance (x : Wallet) : UInt64 := amountWrap (x.db.pending.map (·.p.amount))
+
+/-! ### the properties as executable predicates on a world -/
+
+/-- the mint that has keyset `ks` -/
+def World.mintOfKs (w : World) (ks : KsId) : Option Nat := (List.range w.mints.length).find? (fun i => (w.mint i).hasKs ks)
+
+def Wallet.held (x : Wallet) : List WProof := x.db.proofs ++ x.db.pending.map (·.p)
+
+/-- W_balance (second half): every spendable proof is a genuine proof that is UNSPENT at its mint. -/
+def wBalance (w : World) : Bool :=
+  w.wallets.all (fun x => x.db.proofs.all (fun p =>
+    match w.mintOfKs p.ks with
+    | some mi => (w.mint mi).genuine p && (w.mint mi).stateOf p.secret == .unspent
+    | none => false))
+
+/-- W_distinct: the spendable and pending buckets of all wallets hold pairwise distinct secrets. -/
+def wDistinct (w : World) : Bool := !MintView.dupSecrets (w.wallets.flatMap (fun x => x.held.map (·.secret)))
+
+def heldSomewhere (w : World) (s : SId) : Bool :=
+  w.wallets.any (fun x => x.held.any (·.secret == s)) || w.tokens.any (fun t => t.proofs.any (·.secret == s))
+
+/-- W_conserve (no value lost): every output a mint signed and has not seen spent is in a wallet bucket or in a
+    value returned to a caller. -/
+def wConserve (w : World) : Bool :=
+  w.mints.all (fun m => m.sigs.all (fun sg => m.isSpent sg.out || heldSomewhere w sg.out))
+
+/-- W_pending: a pending proof was handed out by `Send` (it is in a token of this wallet) or is locked by a melt
+    quote of this wallet; a proof handed out by `Send` is pending until the mint has seen it spent. -/
+def wPending (w : World) : Bool :=
+  (List.range w.wallets.length).all (fun wi =>
+    let x := w.wallet wi
+    x.db.pending.all (fun e =>
+      match e.quote with
+      | some q => x.db.meltQ.any (·.id == q)
+      | none => w.tokens.any (fun t => t.sender == some wi && t.proofs.any (·.secret == e.p.secret))) &&
+    w.tokens.all (fun t => t.sender != some wi || t.proofs.all (fun p =>
+      x.db.pending.any (·.p.secret == p.secret) || (w.mint t.mint).isSpent p.secret)))
+
+/-- counter_discipline: no request ever contained an output that was already signed, and every stored counter
+    is past every signed counter of (seed, keyset). -/
+def cDiscipline (w : World) : Bool :=
+  w.mints.all (fun m => m.reuse.isEmpty) &&
+  w.wallets.all (fun x => x.db.keysets.all (fun r =>
+    (w.mint r.mint).sigs.all (fun sg =>
+      match sg.out with
+      | .det seed ks c => !(seed == x.seed && ks == r.id) || decide (c < r.counter)
+      | .rnd _ => true)))
+
+/-- the same for the keysets that are active at their mint (what survives the stale write-back on rotation) -/
+def cDisciplineActive (w : World) : Bool :=
+  w.mints.all (fun m => m.reuse.isEmpty) &&
+  w.wallets.all (fun x => x.db.keysets.all (fun r =>
+    !(w.mint r.mint).isActive r.id ||
+    (w.mint r.mint).sigs.all (fun sg =>
+      match sg.out with
+      | .det seed ks c => !(seed == x.seed && ks == r.id) || decide (c < r.counter)
+      | .rnd _ => true)))
+
+/-- value of the seed's signed outputs that are unspent or locked at the mints -/
+def seedTruth (w : World) (seed : Nat) : Nat :=
+  (w.mints.map (fun m => ((m.sigs.filter (fun sg =>
+    (match sg.out with | .det s _ _ => s == seed | .rnd _ => false) && !m.isSpent sg.out)).map (·.amount.toNat)).sum)).sum
+
+def walletValue (x : Wallet) : Nat := (x.held.map (·.amount.toNat)).sum
 
 /-- the default selection: `Model.Select` with the stable sorter -/
 def selStable : Sel where
